@@ -93,9 +93,15 @@ def check_tree(stmt, declared):
     counter = [0]
     problems = []
 
+    sym = {}          # object id -> per rank the ROOT it is a level of (None: unknown), followed through splits / merges
+
+    def root_of(rid):
+        return re.sub(r"[0-9]+I?$", "", rid)
+
     def new_obj(r, inp=False, n=None):
         counter[0] += 1
         ids[counter[0]] = r
+        sym[counter[0]] = [root_of(x) for x in r] if isinstance(r, list) else None
         arity[counter[0]] = len(r) if isinstance(r, list) else n
         if inp:
             inputs.add(counter[0])
@@ -180,7 +186,23 @@ def check_tree(stmt, declared):
                     n1 = n0 + lv[0] if lv else None
                 else:       # mergeRanks / flattenRanks
                     n1 = n0 - lv[0] if lv else None
+                src = obj[e.obj.name]
+                s0 = sym.get(src)
+                if s0 is None and isinstance(ids.get(src), list):
+                    s0 = [root_of(x) for x in ids[src]]
+                dp = [a.expr.int for a in e.args if isinstance(a, h.AParam) and a.name == "depth" and isinstance(a.expr, h.EInt)]
+                s1 = None
+                if s0 is not None and dp and 0 <= dp[0] < len(s0):
+                    d = dp[0]
+                    if e.name.startswith("split"):
+                        s1 = s0[:d] + [s0[d], s0[d]] + s0[d + 1:]           # both halves are levels of the same rank
+                    elif e.name.startswith("merge") and lv and d + lv[0] < len(s0):
+                        grp = s0[d:d + lv[0] + 1]
+                        if len(set(grp)) != 1:
+                            problems.append("`%s` merges levels of different ranks: %s" % (text, grp))
+                        s1 = s0[:d] + [grp[0]] + s0[d + lv[0] + 1:]
                 obj[v] = new_obj(None, n=n1)
+                sym[obj[v]] = s1
             else:
                 reads_in(e, text)
                 if v in obj:
@@ -193,6 +215,11 @@ def check_tree(stmt, declared):
                 if obj[u] in inputs:
                     problems.append("setRankIds applied in place to the user's input object via %s" % u)
                 ids[obj[u]] = _rank_ids(s.expr.args)
+                if sym.get(obj[u]) is not None and ids[obj[u]] is not None and len(sym[obj[u]]) == len(ids[obj[u]]):
+                    off = [(x, r_) for x, r_ in zip(ids[obj[u]], sym[obj[u]]) if root_of(x) != r_ and x != r_]
+                    if off:
+                        problems.append("`%s` names a rank %s that is a level of rank %s" % (text, off[0][0], off[0][1]))
+                sym[obj[u]] = [root_of(x) for x in ids[obj[u]]] if ids[obj[u]] is not None else None
                 if arity.get(obj[u]) is not None and ids[obj[u]] is not None and len(ids[obj[u]]) != arity[obj[u]]:
                     problems.append("`%s` gives %d rank ids to a tensor that has %d ranks" % (text, len(ids[obj[u]]), arity[obj[u]]))
             return
@@ -351,6 +378,10 @@ def bounded(uni, tier, seed):
             want = outn + "_" + "".join(ranks)
             if want not in obj:
                 problems.append("result of Einsum %s is not bound to %s" % (outn, want))
+            elif isinstance(ids.get(obj[want]), list) and list(ids[obj[want]]) != list(ranks):
+                # the name is a concatenation: ["M", "NO"] and ["M", "N", "O"] both spell MNO
+                problems.append("result of Einsum %s is bound to %s but its rank ids are %s, not %s"
+                                % (outn, want, ids[obj[want]], list(ranks)))
         if len(samples) < 3:
             samples.append({"spec": name[:80], "tensor_variables": sorted(v for v in obj if NAME_RE.match(v))[:8]})
         if problems:
